@@ -16,6 +16,7 @@ import CG.Driver.HNx
 import CG.Driver.HNxMin
 import CG.Driver.HNxReach
 import CG.Driver.HNxTopo
+import CG.Driver.HPyJson
 
 /-- stateless handlers: first token of a line selects the handler -/
 def handlers : List (String × (List String → String)) := [
@@ -37,6 +38,7 @@ def handlers : List (String × (List String → String)) := [
   ("nxmin", CG.Driver.NxMin.handle),
   ("nxreach", CG.Driver.NxReach.handle),
   ("nxtopo", CG.Driver.NxTopo.handle),
+  ("pyjson", CG.Driver.PyJson.handle),
   ("gecho", fun args => match args with
     | [t] => (match CG.Driver.GraphCodec.decGraph? t with | some g => CG.Driver.GraphCodec.encGraph g | none => "bad-op")
     | _ => "bad-op")
